@@ -97,6 +97,58 @@ def enum_variants(prog, adt_name):
     return [v["name"] for v in adt["variants"]]
 
 
+def _strip_refs(t):
+    t = t.strip()
+    while True:
+        if t.startswith("&mut "):
+            t = t[5:]
+        elif t.startswith("&"):
+            t = t[1:]
+        elif t.startswith("alloc::boxed::Box<"):
+            t = t[len("alloc::boxed::Box<"):]
+        else:
+            return t.strip()
+
+
+def _head(t):
+    t = _strip_refs(t)
+    for i, ch in enumerate(t):
+        if ch in "<, >)":
+            return t[:i]
+    return t
+
+
+def place_type_head(prog, fn, place):
+    """ADT path of the type of `place` (refs stripped), or None if it cannot be determined from the
+    ADT field tables (generic parameters, tuples, ...)."""
+    cur = _head(fn.locals[place[0]])
+    variant = None
+    for e in place[1]:
+        if isinstance(e, str):
+            continue
+        if e[0] == "d":
+            variant = e[1]
+            continue
+        if e[0] == "f":
+            adt = prog.adts.get(cur)
+            if adt is None:
+                return None
+            vs = adt["variants"]
+            v = next((x for x in vs if x["name"] == variant), None) if variant else vs[0]
+            variant = None
+            if v is None:
+                return None
+            fd = next((x for x in v["fields"] if x["name"] == e[2]), None)
+            if fd is None:
+                return None
+            cur = _head(fd["ty"])
+            if "::" not in cur:
+                return None
+            continue
+        return None
+    return cur
+
+
 def match_arms(prog, fn, adt_name):
     """switches on the discriminant of a value of enum `adt_name`:
     list of (switch_bb, {variant_name: succ_bb}, otherwise_bb, place)"""
@@ -104,7 +156,6 @@ def match_arms(prog, fn, adt_name):
     out = []
     if variants is None:
         return out
-    short = adt_name.split("::", 1)[-1]
     for b in sorted(fn.live):
         t = fn.term(b)
         if t[0] != "switch":
@@ -113,11 +164,13 @@ def match_arms(prog, fn, adt_name):
         if not d or d[0] != "disc":
             continue
         place = d[1]
-        lty = fn.locals[place[0]]
-        # the local's type must mention the enum (possibly behind refs)
-        if adt_name not in lty and short not in lty:
+        head = place_type_head(prog, fn, place)
+        if head is None:
+            # unknown (generic field): accept only if the local's own type is the enum
+            if _head(fn.locals[place[0]]) != adt_name or any(not isinstance(e, str) for e in place[1]):
+                continue
+        elif head != adt_name:
             continue
-        # if the place has field projections the local type is not the enum's; accept if the name matches anyway
         arms = {}
         for v, tb in t[2]:
             vi = int(v)
